@@ -12,6 +12,7 @@
 import Frrs.Sanity
 import Frrs.Pipeline
 import Frrs.Extracted
+import Frrs.Proofs.Cli
 namespace Frrs.C12
 open Frrs
 set_option linter.unusedSimpArgs false
@@ -122,5 +123,11 @@ example : preflightDecision false true { localBranches := [(b!"main", b!"aa"), (
     = some .unpushedChanges := by decide +kernel
 example : freshlyPacked 0 0 99 = true ∧ freshlyPacked 0 0 100 = false ∧ freshlyPacked 0 1 1 = false := by decide
 example : Violation { worktrees := 2 } := .worktrees (by decide)
+
+
+/-- `--force` is only ever switched on: no later word of the command line takes it back (model of `parse_args`) -/
+theorem force_flag_survives_the_line (badRegex args : List Bytes) (s o : Cli.CliOpts)
+    (h : Cli.loop badRegex args s = .ok o) (hs : s.force = true) : o.force = true :=
+  Cli.force_sticky badRegex args s o h hs
 
 end Frrs.C12
